@@ -38,13 +38,21 @@ def _snapshot_globals():
     seen = set()
 
     def consider(obj):
-        if type(obj) in (dict, list, set) and id(obj) not in seen:
+        if type(obj) in (dict, list, set, bytearray) and id(obj) not in seen:
             seen.add(id(obj))
             try:
                 _GLOBALS.append((obj, copy.deepcopy(obj)))
             except Exception:
                 pass
     plain = (type(None), bool, int, float, str, bytes, tuple)
+
+    def consider_defaults(fn):
+        # mutable default arguments live as long as the process does (the classic shared-default slip)
+        if isinstance(fn, (staticmethod, classmethod)):
+            fn = fn.__func__
+        if isinstance(fn, types.FunctionType) and (fn.__module__ or "").startswith("yabgp"):
+            for d in (fn.__defaults__ or ()) + tuple((fn.__kwdefaults__ or {}).values()):
+                consider(d)
     for name in sorted(sys.modules):
         if not (name == "yabgp" or name.startswith("yabgp.")) or ".tests" in name:
             continue
@@ -56,11 +64,13 @@ def _snapshot_globals():
             if k.startswith("__"):
                 continue
             consider(v)
+            consider_defaults(v)
             if isinstance(v, plain):
                 _SCALARS.append((mod, k, v))
             if isinstance(v, type) and getattr(v, "__module__", "").startswith("yabgp"):
                 _NAMES.append((v, set(vars(v))))
                 for ck, cv in sorted(vars(v).items(), key=lambda kv: kv[0]):
+                    consider_defaults(cv)
                     if not ck.startswith("__"):
                         consider(cv)
                         if isinstance(cv, plain):
@@ -94,7 +104,7 @@ def _restore_globals():
             if isinstance(obj, dict):
                 obj.clear()
                 obj.update(fresh)
-            elif isinstance(obj, list):
+            elif isinstance(obj, (list, bytearray)):
                 obj[:] = fresh
             else:
                 obj.clear()
